@@ -287,22 +287,62 @@ Proof.
   split. exact ex_call_runs. repeat split; try reflexivity. constructor. simpl; tauto.
 Qed.
 
-(* ---- what is NOT true, with witnesses (both reproduce on the real assembler) -------------------------------------------------------------
-   (a) EXPLICITLY written compressed transfers with a bare label do not land on it: parse_item hands the operand of c.j / c.jal / c.beqz /
-       c.bnez to parse_immediate (a bare name is Arithmetic: the ABSOLUTE value of the label), not to the reference logic of jal / beq
-       (a bare name is %offset).  `addi x0,x0,0 / loop: / c.j loop / c.beqz x8, loop`: loop = 4; the c.j standing at 4 carries +4
-       (lands on 8), the c.beqz standing at 6 carries +4 (lands on 10).  transfer_tokens therefore excludes these spellings; the
-       compressed forms CHOSEN by the compression pass are covered by C03_text_branch_lands / C03_text_jal_lands. *)
-Example C03_text_explicit_compressed_bare_label_refuted :
-  exists r, assemble_text ex_cj [] [] false = TDone r /\
-    assoc_str "loop"%string (r_labels r) = Some 4 /\ assoc_str "loop"%string (r_consts r) = None /\
-    r_chunks r = [(exT 1, CBytes [19; 0; 0; 0]); (exT 3, CBytes (le_bytes 2 (17 + 160 * 256))); (exT 4, CBytes (le_bytes 2 (17 + 192 * 256)))] /\
-    decode16 (17 + 160 * 256) = Some (CJ 4) /\ 4 + 4 <> 4 /\
-    decode16 (17 + 192 * 256) = Some (CBeqz 8 4) /\ 6 + 4 <> 4.
+(* ---- EXPLICITLY written compressed transfers `c.j L`, `c.jal L`, `c.beqz rs, L`, `c.bnez rs, L` (ctransfer_tokens: L a single token that
+   is no integer literal) to a label line of the text: ONE two-byte chunk in BOTH modes, decoding (Spec/RVC.v) to a compressed
+   instruction whose expansion is the jal / the branch of that condition with offset q - p.
+   D28: before the repair of parse_item (asm.py: the CB branch for c.beqz / c.bnez and the CJ branch wrap a single non-integer operand
+   token as ['%offset', tok], as the B / J branches do) the operand went to parse_immediate as it was, a bare name was Arithmetic and the
+   ABSOLUTE value of the label was used as the pc-relative offset: in `addi x0,x0,0 / loop: / c.j loop / c.beqz x8, loop` (loop = 4) the
+   c.j standing at 4 carried +4 (landed on 8) and the c.beqz standing at 6 carried +4 (landed on 10); the statements below were false of
+   the model of the former parser (replay: findings/D28-C03-explicit-compressed-transfer-to-label.json). *)
+Theorem C03_text_cb_lands :
+  forall ls c0 l0 cmp r,
+    assemble_text ls c0 l0 cmp = TDone r ->
+    forall ls1 l text ls2 ts L m la l' text' lb,
+      ls = ls1 ++ (l, text) :: ls2 -> lex_tokens text = Some ts -> ctransfer_tokens ts L m -> m <> "jal"%string ->
+      assoc_str L (r_consts r) = None ->
+      ls = la ++ (l', text') :: lb -> front_line l' text' = FOk (Some (ILabel L)) ->
+      exists cs1 g cs2 ca cb,
+        r_chunks r = cs1 ++ g ++ cs2 /\ text_layout r 0 ls1 cs1 /\
+        r_chunks r = ca ++ cb /\ text_layout r 0 la ca /\
+        let p := tot csz cs1 in let q := tot csz ca in
+        exists h ci c r1, g = [(l, CBytes (le_bytes 2 h))] /\ decode16 h = Some ci /\ expand_c ci = Branch c r1 0 (q - p) /\ bcond_name c = m.
+Proof. exact text_cb_lands. Qed.
+Print Assumptions C03_text_cb_lands.
+Theorem C03_text_cj_lands :
+  forall ls c0 l0 cmp r,
+    assemble_text ls c0 l0 cmp = TDone r ->
+    forall ls1 l text ls2 ts L la l' text' lb,
+      ls = ls1 ++ (l, text) :: ls2 -> lex_tokens text = Some ts -> ctransfer_tokens ts L "jal"%string ->
+      assoc_str L (r_consts r) = None ->
+      ls = la ++ (l', text') :: lb -> front_line l' text' = FOk (Some (ILabel L)) ->
+      exists cs1 g cs2 ca cb,
+        r_chunks r = cs1 ++ g ++ cs2 /\ text_layout r 0 ls1 cs1 /\
+        r_chunks r = ca ++ cb /\ text_layout r 0 la ca /\
+        let p := tot csz cs1 in let q := tot csz ca in
+        exists h ci rd, g = [(l, CBytes (le_bytes 2 h))] /\ decode16 h = Some ci /\ expand_c ci = Jal rd (q - p).
+Proof. exact text_cj_lands. Qed.
+Print Assumptions C03_text_cj_lands.
+(* non-vacuity: addi x0,x0,0 / loop: / c.j loop / c.beqz x8, loop  assembles in both modes; the c.j standing on `loop` carries 0, the c.beqz
+   two bytes behind it carries -2 *)
+Example C03_text_explicit_compressed_example :
+  (forall cmp, exists r, assemble_text ex_cj [] [] cmp = TDone r /\
+     r_labels r = [("loop", if cmp then 2 else 4)]%string /\ r_consts r = [] /\
+     r_chunks r = [(exT 1, CBytes (if cmp then [1; 0] else [19; 0; 0; 0])); (exT 3, CBytes (le_bytes 2 (1 + 160 * 256)));
+                   (exT 4, CBytes (le_bytes 2 (125 + 220 * 256)))]) /\
+  ex_cj = firstn 2 ex_cj ++ (exT 3, "    c.j loop")%string :: skipn 3 ex_cj /\
+  lex_tokens "    c.j loop" = Some ["c.j"; "loop"]%string /\ ctransfer_tokens ["c.j"; "loop"]%string "loop" "jal" /\
+  lex_tokens "    c.beqz x8, loop" = Some ["c.beqz"; "x8"; "loop"]%string /\ ctransfer_tokens ["c.beqz"; "x8"; "loop"]%string "loop" "beq" /\
+  ex_cj = firstn 1 ex_cj ++ (exT 2, "loop:")%string :: skipn 2 ex_cj /\ front_line (exT 2) "loop:" = FOk (Some (ILabel "loop")) /\
+  decode16 (1 + 160 * 256) = Some (CJ (4 - 4)) /\ decode16 (125 + 220 * 256) = Some (CBeqz 8 (4 - 6)).
 Proof.
-  eexists. split. exact ex_cj_runs. repeat split; try reflexivity; try (intro E; discriminate E).
+  split. exact ex_cj_runs. repeat split; try reflexivity.
+  - apply ct_cj; [simpl; tauto|reflexivity|intro E; discriminate].
+  - apply ct_cb; [simpl; tauto|intro E; discriminate|reflexivity|intro E; discriminate].
 Qed.
-(* (b) the hypothesis `assoc_str L (r_consts r) = None` is needed: a constant named like a label shadows it (ChainMap(constants, labels)).
+
+(* ---- what is NOT true, with a witness (reproduces on the real assembler) -------------------------------------------------------------- *)
+(* the hypothesis `assoc_str L (r_consts r) = None` is needed: a constant named like a label shadows it (ChainMap(constants, labels)).
        `L = 100 / L: / j L`: the label L is 0, the jump standing at 0 carries +100. *)
 Example C03_text_constant_shadows_label :
   exists r, assemble_text ex_shadow [] [] false = TDone r /\
